@@ -3,6 +3,7 @@
 """This module provide helper functions to read gsd files"""
 
 import os
+from dataclasses import replace
 from typing import Any
 
 import numpy as np
@@ -172,6 +173,6 @@ def read_gsd_dcd(f_gsd: Any, f_dcd: Any, ndim: int) -> Snapshots:
         return None
 
     for i in range(positions.shape[0]):
-        snapshots[i].positions = positions[i][:, :ndim]
+        snapshots[i] = replace(snapshots[i], positions=positions[i][:, :ndim])
 
     return Snapshots(nsnapshots=len(f_gsd), snapshots=snapshots)
